@@ -198,7 +198,7 @@ func runC19(c *kit.Ctx) {
 // R3 response decoder bounds
 
 func c19R3(c *kit.Ctx, m *c19Model) {
-	r := c.Rule("R3", "every index/slice/word access of the response decoders is in range", 7)
+	r := c.Rule("R3", "every index/slice/word access of the response decoders is in range", 5)
 	if len(m.Decoders) < 2 {
 		c.Fatalf("expected two response decoders, found %d", len(m.Decoders))
 	}
